@@ -4,6 +4,7 @@ package vsched
 
 import (
 	"fmt"
+	"sort"
 	"unsafe"
 )
 
@@ -171,4 +172,36 @@ func mapAddr(m interface{}) uintptr {
 // Describe renders a race for reports.
 func (r Race) String() string {
 	return fmt.Sprintf("data race (%s) on %s: %s vs %s", r.Kind, r.Var, r.SiteA, r.SiteB)
+}
+
+// Keys returns the keys of a map. Under exploration they are sorted (by their
+// printed form; pointer keys that are GEDCOM nodes by their GEDCOM line), or
+// reverse sorted with MapOrderReverse, so that map iteration is a configuration
+// instead of a source of nondeterminism. With no execution in progress the
+// order is Go's own.
+func Keys[M ~map[K]V, K comparable, V any](m M) []K {
+	keys := make([]K, 0, len(m))
+	for k := range m {
+		keys = append(keys, k)
+	}
+	s := cur.Load()
+	if s == nil {
+		return keys
+	}
+	desc := make(map[K]string, len(keys))
+	for _, k := range keys {
+		var i interface{} = k
+		if g, ok := i.(interface{ GEDCOMLine(int) string }); ok {
+			desc[k] = g.GEDCOMLine(0)
+		} else {
+			desc[k] = fmt.Sprint(i)
+		}
+	}
+	sort.SliceStable(keys, func(a, b int) bool { return desc[keys[a]] < desc[keys[b]] })
+	if s.mapOrderReverse {
+		for a, b := 0, len(keys)-1; a < b; a, b = a+1, b-1 {
+			keys[a], keys[b] = keys[b], keys[a]
+		}
+	}
+	return keys
 }
